@@ -186,3 +186,20 @@ pub fn read_bam_positions(src: Source, items: &mut Vec<String>) -> io::Result<()
     }
     Ok(())
 }
+
+/// The format-detecting facade (`noodles_util::alignment::io::Reader`): compression method and
+/// format are sniffed from the stream itself; `refs` only matters for CRAM.
+pub fn read_util_alignment(src: Source, refs: Option<noodles_fasta::Repository>, items: &mut Vec<String>) -> io::Result<()> {
+    let mut b = noodles_util::alignment::io::reader::Builder::default();
+    if let Some(r) = refs {
+        b = b.set_reference_sequence_repository(r);
+    }
+    let mut r = b.build_from_reader(src.into_read())?;
+    let header = r.read_header()?;
+    items.push(format!("H|{}", render_header(&header)?));
+    for rec in r.records(&header) {
+        let rec = rec?;
+        items.push(format!("R|{}", render_record(&header, rec.as_ref())?));
+    }
+    Ok(())
+}
